@@ -117,6 +117,7 @@ def evalExpr (env : Env) : Nat → List Char → Option Int
     match cs with
     | '<' :: r => (evalExpr env fuel r).map fun v => v % 256
     | '>' :: r => (evalExpr env fuel r).map fun v => (v / 256) % 256
+    | '-' :: r => (evalExpr env fuel r).map fun v => -v
     | _ =>
       match stripParens cs with
       | some inner => evalExpr env fuel inner
@@ -145,7 +146,6 @@ def parseSyn (s : String) : Syn :=
   | [] => .none
   | '#' :: r => .imm (String.ofList r)
   | _ =>
-    if cs.map Char.toUpper == ['A'] then .none else
     match endsWithCI cs [')', ',', 'Y'] with
     | some r => (match r with | '(' :: e => .indY (String.ofList e) | _ => .dir s)
     | none =>
@@ -178,7 +178,7 @@ def resolve (env : Env) (mn : Mn) (opd : String) : Option (Opd × Mode) :=
   if mn.isCondBranch then
     if opd.isEmpty then none else some (.lbl opd, .rel)
   else
-  match parseSyn opd with
+  match (if opd == "A" && legal mn .acc && (env.get? "A").isNone then Syn.none else parseSyn opd) with
   | .none =>
     if legal mn .impl then some (.none, .impl)
     else if legal mn .acc then some (.none, .acc) else none
